@@ -5,6 +5,7 @@ import (
 	"sort"
 	"strconv"
 	"strings"
+	"sync/atomic"
 	"time"
 
 	"rcproxy/core"
@@ -344,8 +345,14 @@ func (clusterView) Exec(line string) (out string, oracle string, tags []string) 
 	}()
 	core.VerifResetClusterPanic()
 	marker := make(chan struct{}, 8)
+	var endOfCase int32
 	done := env.env.StartClusterLoop(func(addr string) (*redis.Info, error) {
 		if addr == "9.9.9.9:9" {
+			if atomic.LoadInt32(&endOfCase) != 0 {
+				// unwind the refresh goroutine of this case (the hook recovers): it must not live on and compete
+				// for the next case's probe replies
+				panic("verif: end of case")
+			}
 			marker <- struct{}{}
 			return nil, fmt.Errorf("marker")
 		}
@@ -357,16 +364,22 @@ func (clusterView) Exec(line string) (out string, oracle string, tags []string) 
 		if !alive {
 			return
 		}
-		if !env.env.ClusterFeed(markerMsg) {
-			return
+		// (a marker can get lost: the refresh goroutine of the previous case re-reads the engine's channel once
+		// more before it parks and may take it; a live goroutine answers one of the repeats)
+		for attempt := 0; attempt < 4; attempt++ {
+			if !env.env.ClusterFeed(markerMsg) {
+				return
+			}
+			select {
+			case <-marker:
+				return
+			case <-done:
+				alive = false
+				return
+			case <-time.After(3 * time.Second):
+			}
 		}
-		select {
-		case <-marker:
-		case <-done:
-			alive = false
-		case <-time.After(3 * time.Second):
-			alive = false
-		}
+		alive = false
 	}
 	var outs []string
 	var fails []string
@@ -496,7 +509,20 @@ func (clusterView) Exec(line string) (out string, oracle string, tags []string) 
 	// engine is replaced by the next case: it re-reads EngineGlobal.clusterChan on every iteration
 	// and would otherwise steal the next case's probe replies.
 	sync()
-	time.Sleep(3 * time.Millisecond)
+	if alive {
+		// end the goroutine (see above) and wait for it
+		atomic.StoreInt32(&endOfCase, 1)
+		for attempt := 0; attempt < 4; attempt++ {
+			env.env.ClusterFeed(markerMsg)
+			select {
+			case <-done:
+				attempt = 4
+			case <-time.After(2 * time.Second):
+			}
+		}
+		core.VerifResetClusterPanic()
+	}
+	time.Sleep(time.Millisecond)
 	return strings.Join(outs, " | "), strings.Join(fails, " | "), tags
 }
 
